@@ -23,6 +23,7 @@ AVOIDABLE = [
     "nested-recovered",      # panic raised and recovered inside a deferred call (swallows the outer panic)
     "goexit-in-deferred",    # runtime.Goexit called from a deferred call (aborts a panic in Go)
     "panic-nil",             # panic(nil)
+    "loop-branch-then-defer",  # defer on a branch inside a loop + a non-loop defer statement after that loop
 ]
 
 PRELUDE = r'''package main
@@ -301,7 +302,7 @@ func callraw(u int, f func(int) int, x int) {
 
 class Ctx:
     __slots__ = ("fid", "decl_named", "value_return", "in_deferred", "loops", "allow_recover", "allow_goexit",
-                 "callees", "depth", "lit", "in_yield", "toplevel", "norec_callees", "allow_rh")
+                 "callees", "depth", "lit", "in_yield", "toplevel", "norec_callees", "allow_rh", "cyc")
 
     def clone(self, **kw):
         c = Ctx()
@@ -323,6 +324,7 @@ class FuncGen:
         self.nlit = 0
         self.nstmt = 0
         self.sk = []              # skeleton tokens
+        self.tainted = {}         # literal id -> a loop with a defer on a branch has been generated
 
     # ------------------------------------------------------------ helpers
     def site(self):
@@ -354,7 +356,15 @@ class FuncGen:
                 break
             self.nstmt += 1
             lines, pp, is_defer = self.stmt(ctx, ind)
-            if top and is_defer and seen_pp and self.av("always-unregistered"):
+            if is_defer and self.tainted.get(ctx.lit) and ctx.cyc == 0 and not ctx.in_yield and self.av("loop-branch-then-defer"):
+                # llgo compiles (and replays) blocks that follow a loop before those blocks of the loop that are not on
+                # the first cycle it finds (finding C04-block-order-replay): after such a loop every further defer
+                # statement of the function is put into a one-iteration loop -> linked-list kind, dynamic order
+                p = "\t" * ind
+                o = self.site()
+                lines = [p + "for once%d := 0; once%d < 1; once%d++ {" % (o, o, o)] + ["\t" + l for l in lines] + [p + "}"]
+                self.sk.append("O")
+            elif top and is_defer and seen_pp and self.av("always-unregistered"):
                 # a defer statement directly in the function body after a point that may panic could be classified
                 # "always" (entry or single exit block) by llgo: force it into a branch -> conditional kind
                 p = "\t" * ind
@@ -423,7 +433,7 @@ class FuncGen:
         # registers no recovering defers, and recover() directly in D's body is generated for first-level D only.
         avoid_nested = self.av("recover-indirect") or self.av("nested-recovered")
         c = ctx.clone(in_deferred=ctx.in_deferred + 1, loops=0, depth=ctx.depth - 1, lit=lit, value_return=False,
-                      in_yield=False, toplevel=True, allow_recover=ctx.allow_recover and not avoid_nested,
+                      in_yield=False, toplevel=True, cyc=0, allow_recover=ctx.allow_recover and not avoid_nested,
                       allow_rh=ctx.allow_recover and (ctx.in_deferred == 0 or not avoid_nested),
                       allow_goexit=ctx.allow_goexit and not self.av("goexit-in-deferred"),
                       callees=(ctx.norec_callees if (avoid_nested or self.av("goexit-in-deferred")) else ctx.callees))
@@ -558,7 +568,8 @@ class FuncGen:
     def s_for(self, ctx, ind, p):
         self.sk.append("For[")
         d = self.site()
-        c = ctx.clone(depth=ctx.depth - 1, loops=ctx.loops + 1)
+        c = ctx.clone(depth=ctx.depth - 1, loops=ctx.loops + 1, cyc=ctx.cyc + 1)
+        mark = len(self.sk)
         n = self.r.choice(["0", "1", "2", "3", "4", "x%3", "x%4"])
         body, pp = self.block(c, ind + 1, 1, 3)
         if self.r.random() < 0.3:
@@ -573,14 +584,24 @@ class FuncGen:
             self.sk.append("Di")
             out += [p + "\tmpush(%d, i%d, 0)" % (s, d), p + "\tdefer func() { mpop(%d, i%d, 0); tr(\"li%d\", i%d, x) }()" % (s, d, s, d)]
         out += body + [p + "}"]
+        self.taint(ctx, mark)
         self.sk.append("]")
         return out, pp, False
+
+    FLAT = ("A", "Dc", "Da", "Dn", "Dm0", "Dm1", "Dm2", "Dv0", "Dv1", "Db0", "Di", "Big")
+
+    def taint(self, ctx, mark):
+        toks = self.sk[mark:]
+        if any(t.startswith("D") or t.startswith("Rf") for t in toks) and any(t not in self.FLAT for t in toks):
+            self.tainted[ctx.lit] = True
 
     def s_gotoloop(self, ctx, ind, p):
         self.sk.append("Gt[")
         d = self.site()
-        c = ctx.clone(depth=ctx.depth - 1, loops=0)
+        c = ctx.clone(depth=ctx.depth - 1, loops=0, cyc=ctx.cyc + 1)
+        mark = len(self.sk)
         body, pp = self.block(c, ind + 2, 1, 3)
+        self.taint(ctx, mark)
         out = [p + "{", p + "\tj%d := 0" % d, p + "L%d:" % d, p + "\tif j%d < %d {" % (d, self.r.randint(1, 3))] + body + \
               [p + "\t\tj%d++" % d, p + "\t\tgoto L%d" % d, p + "\t}", p + "}"]
         self.sk.append("]")
@@ -672,7 +693,7 @@ class FuncGen:
     def s_immediate(self, ctx, ind, p):
         self.sk.append("Im[")
         lit = self.newlit()
-        c = ctx.clone(depth=ctx.depth - 1, lit=lit, loops=0, value_return=False, in_yield=False, toplevel=True,
+        c = ctx.clone(depth=ctx.depth - 1, lit=lit, loops=0, value_return=False, in_yield=False, toplevel=True, cyc=0,
                       allow_recover=ctx.allow_recover and not (self.av("nested-recovered") and ctx.in_deferred >= 1),
                       in_deferred=ctx.in_deferred)
         # toplevel=True but not a deferred literal itself: recover_here must not be generated directly in it
@@ -685,7 +706,7 @@ class FuncGen:
         self.sk.append("Go[")
         lit = self.newlit()
         d = self.site()
-        c = ctx.clone(depth=ctx.depth - 1, lit=lit, loops=0, value_return=False, in_yield=False, toplevel=False,
+        c = ctx.clone(depth=ctx.depth - 1, lit=lit, loops=0, value_return=False, in_yield=False, toplevel=False, cyc=0,
                       allow_goexit=True)
         body, _ = self.block(c, ind + 1, 1, 4, top=True)
         self.sk.append("]")
@@ -716,6 +737,7 @@ class FuncGen:
         ctx.in_yield = False
         ctx.toplevel = False
         ctx.allow_rh = False
+        ctx.cyc = 0
         body, _ = self.block(ctx, 1, 3, 7, top=True)
         text = "\n".join(body)
         head = []
@@ -1071,6 +1093,75 @@ func p25(x int) (res int) {
 	x += 100
 	return 1
 }
+
+// 26: defer on an else-branch inside a loop, then a defer statement after the loop (first defer frame of the function)
+func p26(x int) (res int) {
+	for i := 0; i < 2; i++ {
+		if i == 5 {
+			x++
+		} else {
+			mpush(262, i, 0)
+			defer dc(262, i, 0)
+		}
+	}
+	mpush(263, x, 0)
+	defer dc(263, x, 0)
+	return x
+}
+
+// 27: same with an entry-block defer first (frame exists): order of the replay
+func p27(x int) (res int) {
+	mpush(271, x, 0)
+	defer dc(271, x, 0)
+	for i := 0; i < 2; i++ {
+		if i == 5 {
+			x++
+		} else {
+			mpush(272, i, 0)
+			defer dc(272, i, 0)
+		}
+	}
+	mpush(273, x, 0)
+	defer dc(273, x, 0)
+	return x
+}
+
+// 28: the shape found by the random generator: switch inside nested loops, conditional defer after the loops, panic
+func p28(x int) (res int) {
+	mpush(281, x, 6)
+	defer dc(281, x, 6)
+	x += 5
+	for i := 0; i < 1; i++ {
+		for j := range 4 {
+			x += j
+			switch x % 3 {
+			case 0:
+				if x%2 == 1 {
+					x++
+				}
+			case 1:
+				mpush(282, x, 6)
+				defer dc(282, x, 6)
+				x += 2
+			default:
+				if x%3 == 0 {
+					x--
+				}
+			}
+		}
+	}
+	if x%2 == 1 {
+		return x
+	}
+	if x > -7777 {
+		mpush(283, 0, 0)
+		defer vdc(283)
+	}
+	if x%2 == 0 {
+		panic(x)
+	}
+	return res + x
+}
 '''
 
 PROBE_UNITS = [
@@ -1078,7 +1169,6 @@ PROBE_UNITS = [
     (1, "call", "p1", 1), (2, "call", "p2", 1), (3, "call", "p3", 1), (4, "call", "p4", 1), (5, "call", "p5", 1),
     (7, "call", "p7", 1), (8, "call", "p8", 2), (9, "call", "p9", 1), (10, "call", "p10", 1),
     (11, "call", "p11", 1), (12, "callgo", "p12", 1), (13, "callgo", "p13", 1), (14, "callgo", "p14", 1), (15, "callgo", "p15", 1),
-    (16, "call", "p16", 1),
     (170, "call", "p17", 0), (171, "call", "p17", 1), (172, "call", "p17", 2), (173, "call", "p17", 3), (174, "call", "p17", 4), (175, "call", "p17", 5),
     (180, "call", "p18", 0), (181, "call", "p18", 1), (182, "call", "p18", 2), (183, "call", "p18", 3),
     (190, "call", "p19", 0), (191, "call", "p19", 1), (192, "call", "p19", 2), (193, "call", "p19", 3),
@@ -1086,6 +1176,9 @@ PROBE_UNITS = [
     (21, "call", "p21", 1), (22, "call", "p22", 1), (23, "call", "p23", 1), (24, "call", "p24", 1),
     (250, "call", "p25", 1), (251, "call", "p25", 2),
     (80, "call", "p8", 0), (81, "call", "p8", 1),
+    (27, "call", "p27", 1), (28, "call", "p28", 7),
+    # the next ones may end in a nil dereference under llgo (one recovered SIGSEGV per thread at most, C03's finding):
+    (26, "callgo", "p26", 1), (16, "call", "p16", 1),
     (6, "call", "p6", 1),     # last: may crash the llgo binary (pops a foreign argument record)
 ]
 
